@@ -266,6 +266,17 @@ func init() {
 						isG, elemWhenTrue := elementTypeGuard(cnd, node)
 						return isG && want == elemWhenTrue
 					})
+					if !guarded {
+						// the test may lie on every feasible way here without dominating (a scan loop that stops
+						// at the first element, followed by a bounds test that short-circuits)
+						if facts, ok := pathFacts(site.Block()); ok {
+							for _, f := range facts {
+								if isG, elemWhenTrue := elementTypeGuard(f.Cond, node); isG && f.Want == elemWhenTrue {
+									guarded = true
+								}
+							}
+						}
+					}
 					c.check(guarded, fmt.Sprintf("%s: directive test on a sibling#%d", strings.TrimPrefix(name, "(*vuego.Vue)."), n), p.instrPos(site), "guarded by Type == ElementNode", "a following sibling's directives are inspected without first requiring it to be an element: a comment or stray text between chain members ends the chain (the later v-else-if / v-else is never rendered)")
 				}
 			}
